@@ -71,9 +71,9 @@ def meta_from_array(x, ndim=None, dtype=None):
             else:
                 meta = meta.reshape((0,) * ndim)
         if meta is np.ma.masked:
-            meta = np.ma.array(np.empty((0,) * ndim, dtype=dtype or x.dtype), mask=True)
+            meta = np.ma.array(np.zeros((0,) * ndim, dtype=dtype or x.dtype), mask=True)
     except Exception:
-        meta = np.empty((0,) * ndim, dtype=dtype or x.dtype)
+        meta = np.zeros((0,) * ndim, dtype=dtype or x.dtype)
 
     if np.isscalar(meta):
         meta = np.array(meta)
